@@ -58,7 +58,7 @@ def main() -> int:
         checks = (a.checks or a.prop).split(',')
         meta['checks'] = {}
         for c in checks:
-            rc = subprocess.run([os.path.join(VERIF, 'run'), c, '--tier', a.tier], cwd=VERIF, env=dict(os.environ, VERIF_REPO=dst, VERIF_EVIDENCE_DIR=os.path.join(scratch, 'evidence')),
+            rc = subprocess.run([os.path.join(VERIF, 'run'), c, '--tier', a.tier], cwd=VERIF, env=dict(os.environ, VERIF_REPO=dst, VERIF_EVIDENCE_DIR=os.path.join(scratch, 'evidence'), VERIF_REPLAY_DIR=os.path.join(scratch, 'replays')),
                                 capture_output=True, text=True)
             keys = sorted({l.split('key=')[1].split(' ')[0] for l in rc.stdout.splitlines() if l.strip().startswith('key=')})
             meta['checks'][c] = {'tier': a.tier, 'exit': rc.returncode, 'keys': keys}
